@@ -137,6 +137,32 @@ def classify(r):
     return ("fold-differs", "literal operands and variable operands give different outcomes")
 
 
+def lazy_op_over_division(tree):
+    """the innermost && || ?: that has a / or % below it (the construct whose lazy operand holds
+    the division that is rejected although never evaluated); None if there is none"""
+    def has_div(t):
+        if t[0] == "L":
+            return False
+        if t[0] == "B" and t[1] in ("div", "mod"):
+            return True
+        return any(has_div(c) for c in t[1:] if isinstance(c, tuple))
+    best = None
+    t = tree
+    while True:
+        while t[0] == "P":
+            t = t[1]
+        if t[0] == "L":
+            return best
+        if t[0] == "C" and has_div(t):
+            best = "cond"
+        elif t[0] == "B" and t[1] in ("and", "or") and has_div(t):
+            best = t[1]
+        nxt = [c for c in t[1:] if isinstance(c, tuple) and has_div(c)]
+        if len(nxt) != 1:
+            return best
+        t = nxt[0]
+
+
 def key_of(prefix, tree):
     rk = ae.root_key(tree, promoted=True)
     if prefix == "trap":
@@ -144,7 +170,7 @@ def key_of(prefix, tree):
         wide = "enum" if "enum" in rk else ("long" if "long" in rk else "int")
         return "%s:%s_min/-1:constred" % (op, wide)
     if prefix == "div0-rejected-but-not-evaluated":
-        return prefix + ":" + rk.split(":")[0]
+        return prefix + ":" + (lazy_op_over_division(tree) or rk.split(":")[0])
     return "%s:%s" % (prefix, rk)
 
 
@@ -584,7 +610,7 @@ def run(ctx):
         if prefix == "trap":
             return "%s:int_min/-1:enumred" % rk.split(":")[0]
         if prefix == "div0-rejected-but-not-evaluated":
-            return "%s:%s:enumred" % (prefix, rk.split(":")[0])
+            return "%s:%s:enumred" % (prefix, lazy_op_over_division(tree) or rk.split(":")[0])
         return "%s:%s" % (prefix, rk)
 
     efail = []
